@@ -77,6 +77,8 @@ class World:
         self.guard_hits = Counter()
         self.history = []        # every executed op (roots included), for second-schedule runs
         self.armed = set()
+        self.big = False
+        self.big_done = False
         from . import findings
         self.open_guards = findings.open_ids()
         self.evals = 0
